@@ -704,7 +704,9 @@ pub fn run_check(check: &dyn Check, tier: Tier, seed: u64) -> i32 {
             let sc = check.generate(seed, idx, tier);
             if let Ok(o) = exec_isolated(check.id(), &sc) {
                 if let Some(v) = o.violations.iter().find(|v| v.class.ends_with("/process-died")) {
-                    agg.violations.push((v.clone(), idx, sc));
+                    if !agg.violations.iter().any(|(x, _, _)| x.class == v.class) {
+                        agg.violations.push((v.clone(), idx, sc));
+                    }
                     found = true;
                     break;
                 }
